@@ -16,11 +16,11 @@ def run(ctx):
     ctx.proof_gate(theorems=THEOREMS)
     if not ctx.build_driver():
         return
-    h = _v2.match_stream(ctx, 'generic')
+    h = _v2.match_stream(ctx, 'determinism')
     if not h:
         return
     d = ctx.rundir
-    nproc = 3 if ctx.tier == 'quick' else 12
+    nproc = 2 if ctx.tier == 'quick' else 12
     outs = []
     for k in range(nproc):
         if not _v2.harness(ctx, 'c04'):
